@@ -1425,6 +1425,16 @@ def merge_run(case, policy):
             return plain_validate(value, previous)
         dt.validate = validate
         mo.addCallback('par', lambda value, *err: events.append(['store', tid(), value]) if not err else None)
+        handle_change = node.dispatcher.handle_change
+
+        def handler(conn, specifier, data):
+            # the handler the dispatcher looks up for a `change`: from here to its end the request is being handled
+            events.append(['begin', tid()])
+            try:
+                return handle_change(conn, specifier, data)
+            finally:
+                events.append(['finish', tid()])
+        node.dispatcher.handle_change = handler
         start = mo.par
         conns = [node.connect() for _ in case['threads']]
 
@@ -1488,8 +1498,9 @@ def merge_verdict(obs, a):
                     f'parameter between the merge and the driver call); replies {obs["replies"]}')
             break
     if not a['ok']:
-        dis = {'model': 'the events are not a run of the change-section system (merge / driver call / store outside one '
-                        'accessLock section)', 'impl': {'events': [e[:2] for e in obs['events']]}}
+        dis = {'model': 'the events are not a run of the change-section system (two requests handled at the same time, or '
+                        'merge / driver call / store outside one accessLock section)',
+               'impl': {'events': [e[:2] for e in obs['events']]}}
     elif not a['same']:
         dis = {'model': 'the change-section system predicts other driver calls', 'impl': {'calls': [
             [t, canonj(p), canon(cur), canon(v)] for t, p, cur, v in obs['calls']]}}
